@@ -12,6 +12,8 @@ from ..oracles import c18_deltas as OD
 from ..oracles import c18_returns as OR
 from ..oracles import c18_stats as OS
 
+from .. import layout as LY
+
 ID = "C18"
 LEVEL = "exploration"
 RULE = (
@@ -536,7 +538,7 @@ def _exec_norm(case, mon):
     dim = case["dim"]
     eps = case["eps"] if case["eps"] is not None else _default_eps()
     x_np = np.asarray(case["x"], dtype=np.float64)
-    x = torch.tensor(case["x"], dtype=dt)
+    x = LY.relayout(torch.tensor(case["x"], dtype=dt), case.get("layout") or LY.pick(x_np.size, x_np.ndim, dim))
     mon.cls(case["dtype"], "dim_negative" if dim < 0 else "dim_nonneg", "norm_" + case["form"])
     obs = OS.frames_of(x_np, dim)
     mean_o, std_o, _ = OS.pooled_stats(obs, False)
@@ -678,8 +680,8 @@ def _exec_deltas(case, mon):
     import pydrobert.torch.modules as M
 
     dt = _tdt(case["dtype"])
-    x = torch.tensor(case["x"], dtype=dt)
     x_np = np.asarray(case["x"], dtype=np.float64)
+    x = LY.relayout(torch.tensor(case["x"], dtype=dt), case.get("layout") or LY.pick(x_np.size, x_np.ndim, case["order"]))
     D = x.dim()
     dim, td, conc = case["dim"], case["time_dim"], case["concatenate"]
     order, width, mode, value = case["order"], case["width"], case["pad_mode"], case["value"]
@@ -738,6 +740,7 @@ def _exec_returns(case, mon):
     r = torch.tensor(r_tn, dtype=dt)
     if bf:
         r = r.t().contiguous()
+    r = LY.relayout(r, case.get("layout") or LY.pick(T, N, int(bf)))
     mon.cls(case["dtype"], "batch_first" if bf else "time_first")
     mon.observe("gammas", repr(gamma))
     tiny = 1.4e-45 if case["dtype"] == "float32" else 4.9e-324
